@@ -123,4 +123,14 @@ def c08(tier):
                 note="melda.rs operations from MIR with the lock model")
 
 
-PROPS = {"C07": c07, "C08": c08, "C03": c03, "C06": c06, "C16": c16, "C19": c19, "C05": c05, "C15": c15}
+def c10(tier):
+    jobs = [Job("h_c10::junk_item", (11,), dict(S2), budget_s=3000, validate=40),
+            Job("h_c10::damaged_item", (), dict(S2), budget_s=3000, validate=40)]
+    return dict(jobs=jobs, bounds={"history": "one replica, two commits (2 blocks + 2 packs)",
+                                   "junk": "names <digits{1..11}>-<word{1,2}>.delta, <word{1..3}>.delta/.pack, revision-like names; content <= 2 symbolic bytes",
+                                   "damage": "any one of the 4 items removed, emptied, truncated by one byte or to half, or one byte (first/middle/last) replaced by any different byte"},
+                assumptions=S2_ASSUME + ["hash collisions are assumed away (injective digest model)", "single fault per run"],
+                note="melda.rs reload / fetch_raw_delta / load_raw_delta / check_delta, datastorage.rs try_load_pack / read_raw_value from MIR")
+
+
+PROPS = {"C07": c07, "C10": c10, "C08": c08, "C03": c03, "C06": c06, "C16": c16, "C19": c19, "C05": c05, "C15": c15}
